@@ -2468,7 +2468,71 @@ def lower_local_method_aliases(repo):
     return count
 
 
+def lower_merged_handlers(repo):
+    """``except Exception [as e]: <simple bindings>; if isinstance(X, K): A  [else:] B`` -- X the
+    caught exception (e, or a local bound to sys.exc_info()[1]), K a class of the package derived
+    from Exception, A ending in raise / return -- is the pair of handlers
+    ``except K as e: <bindings>; A`` followed by ``except Exception as e: <bindings>; B``.
+    Exact: the first handler whose class matches runs, and K is a subclass of Exception"""
+    count = 0
+    for fi in repo.functions.values():
+        if not isinstance(fi.node, ast.FunctionDef):
+            continue
+        for t in ast.walk(fi.node):
+            if not isinstance(t, ast.Try):
+                continue
+            new_handlers = []
+            changed = False
+            for h in t.handlers:
+                ty = ast.unparse(h.type) if h.type is not None else None
+                if ty not in ('Exception', 'BaseException') or not h.body:
+                    new_handlers.append(h)
+                    continue
+                pre, rest = [], list(h.body)
+                while rest and isinstance(rest[0], ast.Assign) and len(rest[0].targets) == 1 and isinstance(rest[0].targets[0], ast.Name) \
+                        and not any(isinstance(x, ast.Call) and not (ast.unparse(x.func) in ('sys.exc_info',)) for x in ast.walk(rest[0].value)):
+                    pre.append(rest.pop(0))
+                if not rest or not isinstance(rest[0], ast.If):
+                    new_handlers.append(h)
+                    continue
+                iff = rest[0]
+                tst = iff.test
+                if not (isinstance(tst, ast.Call) and isinstance(tst.func, ast.Name) and tst.func.id == 'isinstance' and len(tst.args) == 2
+                        and isinstance(tst.args[0], ast.Name) and isinstance(tst.args[1], ast.Name)):
+                    new_handlers.append(h)
+                    continue
+                X, K = tst.args[0].id, tst.args[1].id
+                is_exc = X == h.name or any(isinstance(a, ast.Assign) and a.targets[0].id == X and ast.unparse(a.value) in ('sys.exc_info()[1]',) for a in pre)
+                kcls = repo.classes.get(K)
+                if not is_exc or kcls is None or not any(b in ('Exception',) or b.endswith('Error') for b in kcls.base_names):
+                    new_handlers.append(h)
+                    continue
+                ends = iff.body and isinstance(iff.body[-1], (ast.Raise, ast.Return))
+                if not ends and not iff.orelse and rest[1:]:
+                    new_handlers.append(h)
+                    continue
+                name = h.name or X
+                bind = [] if h.name == X or not any(isinstance(a, ast.Assign) and a.targets[0].id == X for a in pre) else []
+                pre_wo = [a for a in pre if not (a.targets[0].id == X and ast.unparse(a.value) == 'sys.exc_info()[1]')]
+                body_a = copy.deepcopy(pre_wo) + copy.deepcopy(iff.body)
+                body_b = copy.deepcopy(pre_wo) + (copy.deepcopy(iff.orelse) if iff.orelse else []) + copy.deepcopy(rest[1:])
+                if not body_b:
+                    body_b = [ast.Pass()]
+                ha = ast.ExceptHandler(type=ast.Name(id=K, ctx=ast.Load()), name=name, body=body_a)
+                hb = ast.ExceptHandler(type=h.type, name=name, body=body_b)
+                ast.copy_location(ha, h)
+                ast.copy_location(hb, h)
+                new_handlers.extend([ha, hb])
+                changed = True
+            if changed:
+                t.handlers = new_handlers
+                count += 1
+        ast.fix_missing_locations(fi.node)
+    return count
+
+
 def inline_helpers(repo):
+    repo.lowered_merged_handlers = 0
     repo.lowered_local_method_aliases = lower_local_method_aliases(repo)
     repo.lowered_getters = 0
     repo.lowered_compiled_aliases = lower_compiled_aliases(repo)
@@ -2485,6 +2549,7 @@ def inline_helpers(repo):
     repo.desugared_super = desugar_super(repo)
     repo.comprehension_statements = comprehension_statements(repo)
     inl = Inliner(repo).run()
+    repo.lowered_merged_handlers = lower_merged_handlers(repo)
     repo.inlined = inl.expanded
     repo.helpers = sorted(inl.helpers)
     # helpers without any remaining call site: their code now lives in their callers
